@@ -15,7 +15,7 @@ import (
 func init() { Registry["C14"] = checkC14 }
 
 func checkC14(p *core.Prog, r *core.Report) {
-	r.Explanation = "Decides structural necessary conditions of lossless codecs by extracting the byte layout of every straight-line codec function from SSA (constant-bound loops expanded): (R1) every Encode of package protocol writes all 64 positions; (R2) for each of the 20 Encode/Decode pairs every field byte that Decode reads from position p is the byte Encode writes at p (little-endian multi-byte fields, widening before shifting), string fields are read from the region they are written to; (R3) LockCommand and LockResultCommand match the offsets documented in README.md; (R4) every hand-inlined decoder of lock frames in server/ and client/ (functions storing LockCommand fields from a byte buffer) agrees with LockCommand.Decode on every arm, and the inlined result encoder of BinaryServerProtocol agrees with LockResultCommand.Encode; (R5) every RESULT_* code indexes inside ERROR_MSG (every result code has a text rendering); (R7) the text forms COUNT n / RCOUNT n reach the wire as n-1 and results render Count+1 / Rcount+1. (R8) the text parser's in-argument cursor is only reset, accumulated or set to the argument length (a necessary condition of chunking independence; found a real defect, repaired). (R9) the key/id normaliser defines all 16 bytes of its destination on every path (short arguments left-padded with zeros even in a recycled command). NOT decided: the rest of chunking independence, Build/Parse round trip, binary-safety of arguments, effect equivalence of text and binary LOCK, key normalisation (MD5/hex paths)."
+	r.Explanation = "Decides structural necessary conditions of lossless codecs by extracting the byte layout of every straight-line codec function from SSA (constant-bound loops expanded): (R1) every Encode of package protocol writes all 64 positions; (R2) for each of the 20 Encode/Decode pairs every field byte that Decode reads from position p is the byte Encode writes at p (little-endian multi-byte fields, widening before shifting), string fields are read from the region they are written to; (R3) LockCommand and LockResultCommand match the offsets documented in README.md; (R4) every hand-inlined decoder of lock frames in server/ and client/ (functions storing LockCommand fields from a byte buffer) agrees with LockCommand.Decode on every arm, and the inlined result encoder of BinaryServerProtocol agrees with LockResultCommand.Encode; (R5) every RESULT_* code indexes inside ERROR_MSG (every result code has a text rendering); (R7) the text forms COUNT n / RCOUNT n reach the wire as n-1 and results render Count+1 / Rcount+1. (R8) the text parser's in-argument cursor is only reset, accumulated or set to the argument length (a necessary condition of chunking independence; found a real defect, repaired). (R9) the key/id normaliser defines all 16 bytes of its destination on every path (short arguments left-padded with zeros even in a recycled command). (R10) line segments of the reply parser can be empty (inclusive end initialised before the start; a real defect was repaired). NOT decided: the rest of chunking independence, Build/Parse round trip, binary-safety of arguments, effect equivalence of text and binary LOCK, key normalisation (MD5/hex paths)."
 	r.Assumptions = []string{"Go type checker and go/ssa are correct for /repo", "codec functions are straight-line apart from constant-bound loops (anything else is reported as uninterpreted)"}
 	c14R123(p, r)
 	c14R4(p, r)
@@ -23,6 +23,7 @@ func checkC14(p *core.Prog, r *core.Report) {
 	c14R7(p, r)
 	c14R8(p, r)
 	c14R9(p, r)
+	c14R10(p, r)
 }
 
 // c14R8: the text parser is resumable - it returns in the middle of an argument
@@ -710,4 +711,58 @@ func blockReaches(from, to *ssa.BasicBlock) bool {
 		work = append(work, c.Succs...)
 	}
 	return false
+}
+
+// c14R10: the reply parser collects a line as rbuf[start:end+1] with end the
+// index of the last accepted byte. The parser is resumable, so a scan can
+// start at a byte that is not accepted (the terminator alone in a new read, a
+// separator): the segment must then be empty, i.e. end must start at start-1.
+// An end initialised to start makes every scan append at least one byte - the
+// terminator itself - and the result depends on how the stream was split.
+func c14R10(p *core.Prog, r *core.Report) {
+	const rule = "C14/R10"
+	r.Rule(rule, "text parser: a segment taken as rbuf[start:end+1] has its inclusive end initialised before start (an empty scan appends nothing)", 3)
+	for _, fn := range p.FuncsIn("protocol") {
+		if fn.Blocks == nil || recvName(fn) != "TextParser" {
+			continue
+		}
+		x := &core.X{Fr: &core.Frame{Fn: fn}, St: core.NewState()}
+		n := 0
+		for _, b := range fn.Blocks {
+			for _, ins := range b.Instrs {
+				sl, ok := ins.(*ssa.Slice)
+				if !ok || sl.High == nil || sl.Low == nil {
+					continue
+				}
+				if !strings.HasSuffix(core.Plain(x.Canon(sl.X).S), ".rbuf") {
+					continue
+				}
+				add, ok := sl.High.(*ssa.BinOp)
+				if !ok || add.Op.String() != "+" {
+					continue
+				}
+				one, ok := add.Y.(*ssa.Const)
+				if !ok || one.Value == nil || one.Value.ExactString() != "1" {
+					continue
+				}
+				end, ok := add.X.(*ssa.Phi)
+				if !ok {
+					continue
+				}
+				n++
+				key := fmt.Sprintf("%s: segment#%d", core.FuncName(fn), n)
+				bad := false
+				for _, e := range end.Edges {
+					if e == sl.Low {
+						bad = true
+					}
+				}
+				if bad {
+					r.Violate(rule, key, p.InstrPos(sl), "the inclusive end of the segment starts at the segment's first byte: a scan that accepts no byte (terminator or separator first in a new read) still appends one byte, so the parsed reply depends on how the stream was split", nil)
+				} else {
+					r.Hold(rule, key, p.InstrPos(sl), "an empty scan yields an empty segment")
+				}
+			}
+		}
+	}
 }
